@@ -240,6 +240,9 @@ def optimizer_table():
             prog("", [decl("x", I(1)), decl("i", I(0)), while_(lt(var("i"), var("qi")), [set_("x", add(var("x"), I(1))), set_("i", add(var("i"), I(1)))]), ret(var("x"))], q, ["opt", "propagate", "assign-in-loop"]),
             prog("", [decl("x", I(1)), switch(var("qi"), [(I(5), [set_("x", I(50))]), (I(0), [set_("x", I(60))])], [set_("x", I(70))]), ret(var("x"))], q, ["opt", "propagate", "assign-in-switch"]),
             prog("", [decl("a", var("qi")), set_("qi", I(100)), ret(arr([var("a"), var("qi")]))], q, ["opt", "propagate", "copy-then-source-reassigned"]),
+            prog("", [decl("mode", I(1)), decl("hits", I(0)), switch(var("qi"), [(I(5), [set_("hits", I(10))]), (I(0), [set_("hits", I(20))])], [set_("mode", I(99))]), ret(add(var("mode"), var("hits")))], q, ["opt", "propagate", "assign-only-in-default"]),
+            prog("", [decl("mode", I(1)), decl("hits", I(0)), switch(var("qi"), [(I(5), [set_("mode", I(99))]), (I(0), [set_("hits", I(20))])], [set_("hits", I(30))]), ret(add(var("mode"), var("hits")))], q, ["opt", "propagate", "assign-only-in-one-case"]),
+            prog("", [decl("mode", I(1)), if_(lt(var("qi"), I(0)), [switch(var("qi"), [(I(-2), [set_("mode", I(7))])], [set_("mode", I(8))])]), ret(var("mode"))], q, ["opt", "propagate", "assign-in-switch-in-if"]),
             # common subexpressions
             prog("", [decl("a", add(var("qi"), I(1))), set_("qi", I(7)), decl("b", add(var("qi"), I(1))), ret(arr([var("a"), var("b")]))], q, ["opt", "cse", "operand-reassigned-between"]),
             prog("", [decl("a", mul(var("qi"), I(3))), decl("b", mul(var("qi"), I(3))), ret(add(var("a"), var("b")))], q, ["opt", "cse", "plain"]),
